@@ -28,8 +28,8 @@ META = {
             'a direct oracle written from the property text judges every live connection.',
     'note': 'Trusted: Coq kernel + vm_compute; the hand model (tied by correspondence only, not by translation); symbolic AEAD/PRF '
             '(hypotheses open_seal/open_other_key/open_tamper/open_junk, binder = equality of secrets); suite negotiation of a full '
-            'handshake and the acceptable-suite list are oracles taken from the implementation; only certificate handshakes '
-            '(no SRP/anon/external PSK), TLS 1.0-1.3, no HelloRetryRequest, no renegotiation.',
+            'handshake and the acceptable-suite list are oracles taken from the implementation; certificate, SRP and anonymous '
+            'handshakes (no external PSK), TLS 1.0-1.3, no HelloRetryRequest, no renegotiation.',
     'technique': 'Rocq/Coq proof over hand model + vm_compute correspondence on live connection histories',
 }
 KEYNOTE = 'replay: ./check C13 --replay <file>  (re-runs the stored history on live endpoints and prints the oracle verdicts)'
@@ -66,7 +66,7 @@ def run(ctx):
         'oracles taken from the implementation per connection: acceptable suites of the server, suite/alert of a full negotiation',
         'harness/loop.py in-memory endpoints, FakeClock, DetRandom',
     ]
-    ctx.assumptions += ['clock monotone, multiples of 0.25 s', 'certificate handshakes only (no SRP / anonymous / external PSK)',
+    ctx.assumptions += ['clock monotone, multiples of 0.25 s', 'certificate, SRP and anonymous handshakes (no external PSK)',
                         'one client application keeping its Session objects; one SessionCache + settings per server configuration']
     # ---- histories: systematic first (corpus), then random
     jobs = []
